@@ -688,6 +688,92 @@ def search_c18(results, tier, seed, broken):
                   "rule": "fixtures recorded once from revision b4846a6 through the public API (3 curves x 5 circuits: one multiplier, none, three, two-phase shuffle, mixed 2+3 gates padded to 8): this build must accept each recorded proof (with 8 and with 64 generators), reject it under a changed constant, changed application data, changed transcript label, shifted commitment and reordered commitments, reproduce every recorded generator digest and Pedersen base, and re-prove byte-identical proofs from the recorded RNG seed"}
 
 
+# ------------------------------------------------------------------ C04 / C05
+def search_c04(results, tier, seed, broken):
+    hits, n, nontriv, dist = [], 0, set(), Counter()
+    for comp, streams, r in results:
+        if comp == "integrity":
+            for c in getattr(r, "crashes", []):
+                hits.append({"component": comp, "streams": streams, "case": "crash:" + c["curve"], "outdir": r.outdir,
+                             "what": "process aborts while decoding / verifying an altered proof [%s]: %s" % (c["what"], c["input_hex"][:2000])})
+            for row in getattr(r, "integrity", []):
+                if row["kind"] == "BASE":
+                    continue
+                n += row["total"]
+                for k in ("decode_rejected", "identical", "verify_rejected", "accepted", "panicked"):
+                    dist["%s %s" % (row["kind"], k)] += row[k]
+                nontriv.add((row["kind"], row["curve"], row["proof"]))
+                if row["accepted"] > 0:
+                    hits.append({"component": comp, "streams": streams, "case": "%s:%s:%d" % (row["kind"], row["curve"], row["proof"]), "outdir": r.outdir,
+                                 "what": "an altered proof that decodes to a DIFFERENT proof object is accepted (%d of %d %s alterations on %s); first: %s" % (
+                                     row["accepted"], row["total"], row["kind"], row["curve"], row["first"][:3000])})
+                if row["panicked"] > 0:
+                    hits.append({"component": comp, "streams": streams, "case": "%s:%s:%d" % (row["kind"], row["curve"], row["proof"]), "outdir": r.outdir,
+                                 "what": "decoding / verifying an altered proof panics (%d of %d %s alterations on %s); first: %s" % (
+                                     row["panicked"], row["total"], row["kind"], row["curve"], row["first"][:3000])})
+        if comp == "r1cs":
+            for cid, s in r.summary.items():
+                tag = s.get("tag", "")
+                if not (tag.startswith("mutate") or tag.startswith("mutfield")):
+                    continue
+                im, m = r.impl.get(cid) or {}, r.model.get(cid) or {}
+                if 15 not in im:
+                    continue
+                n += 1
+                nontriv.add(tag[:40])
+                verdict = int(im[15][0])
+                dist["mutation verdict=%d" % verdict] += 1
+                if verdict == 99:
+                    hits.append(_hit(r, comp, streams, cid, "verifier panics on a mutated proof: " + tag))
+                elif verdict == 0 and m.get(15) not in ([0], None):
+                    hits.append(_hit(r, comp, streams, cid, "mutated proof accepted by the implementation, rejected by the model under the same challenges: " + tag))
+                elif verdict == 0 and m.get(17) is not None and m.get(17) != [1, 1, 1]:
+                    hits.append(_hit(r, comp, streams, cid, "mutated proof accepted although the specification relations say %s: %s" % (m.get(17), tag)))
+    return hits, {"searched": n, "hits": len(hits), "distinct_nontrivial": len(nontriv), "distribution": dict(dist),
+                  "rule": "per curve, accepted proofs of a 1-phase (2 gates) and a 2-phase (1+2 gates) circuit (thorough: 5 shapes): EVERY single-bit flip of the encoding; every one of the 11+2k point fields negated / +B / +B~ / doubled / random / identity; every scalar +1 / -1 / negated / zero / doubled / random, a<->b; EVERY pairwise swap of point fields; rounds added / dropped / duplicated / reordered / L,R lists swapped; outcome classes: rejected at decoding, decodes to the identical object (re-encoding equals the original bytes), rejected by verify, accepted (violation), panic; plus the model-compared mutation streams"}
+
+
+def search_c05(results, tier, seed, broken):
+    hits, n, nontriv, dist = [], 0, set(), Counter()
+    for comp, streams, r in results:
+        if comp == "batch":
+            for cid, s in r.summary.items():
+                if _tagval(s["line"], "kind") != "7":
+                    continue
+                im = r.impl.get(cid) or {}
+                n += 1
+                bv = int(im.get(15, ["-1"])[0])
+                singles = [int(x) for x in im.get(20, [])]
+                dist["batch statement pair: batch=%d singles=%s" % (bv, singles)] += 1
+                nontriv.add(("batch-pair", s["curve"], tuple(singles)))
+                if bv == 0 and any(x != 0 for x in singles):
+                    hits.append(_hit(r, comp, streams, cid, "batch_verify accepts one proof for two statements whose constants deviate by +d and -d (each rejected individually: %s)" % singles))
+        if comp != "r1cs":
+            continue
+        for cid, s in r.summary.items():
+            tag = s.get("tag", "")
+            if not tag.startswith("statement"):
+                continue
+            im = r.impl.get(cid) or {}
+            kind = tag.split()[1] if len(tag.split()) > 1 else "?"
+            n += 1
+            verdict = s.get("verdict")
+            if s.get("prover") != 0:
+                dist["prover failed"] += 1
+                continue
+            dist["%s -> %s" % (kind, verdict)] += 1
+            nontriv.add((kind, s["curve"], tag.split()[-3:][0]))
+            if kind == "none":
+                if verdict != 0:
+                    hits.append(_hit(r, comp, streams, cid, "control case (verifier's statement = prover's) rejected: " + s["line"]))
+            elif verdict == 0:
+                hits.append(_hit(r, comp, streams, cid, "proof accepted for a different statement / context (%s): %s" % (kind, s["line"])))
+            elif verdict == 99:
+                hits.append(_hit(r, comp, streams, cid, "verifier panics under a deviating statement (%s)" % kind))
+    return hits, {"searched": n, "hits": len(hits), "distinct_nontrivial": len(nontriv), "distribution": dict(dist),
+                  "rule": "honest proofs of random 1- and 2-phase circuits (2-3 commitments, >= 1 gate, a constraint over two committed values, user data before and inside the randomized phase) verified against a statement that deviates in exactly one way: commitment value, commitment blinding, reordered commitments, extra, missing commitment, changed coefficient, changed constant, transcript label, application data before / during construction (changed, missing, relabelled), blinding base, value base; plus an undeviated control; every case also runs through the model (verdicts, scalar vectors, transcripts compared); distinct = distinct (kind, curve, size)"}
+
+
 PROPS = {
     "C01": {
         "prop_files": ["Properties/C01.v"], "run_files": ["Run/R1cs.v"],
@@ -709,6 +795,22 @@ PROPS = {
         "components": lambda tier: [("r1cs", ["honest", "violate", "mutate", "mutfields", "forced"], {})],
         "search": search_c03,
         "assumptions": ["field and module laws (hypotheses)", "challenges = oracle on the transcript history; the challenges the run inverts are non-zero (all_nz hypothesis)"],
+    },
+    "C04": {
+        "prop_files": ["Properties/C04.v"], "run_files": ["Run/R1cs.v"],
+        "level": "proof",
+        "components": lambda tier: [("integrity", ["integrity"], {}), ("r1cs", ["mutate", "mutfields"], {})],
+        "search": search_c04,
+        "assumptions": ["deterministic content only: at FIXED challenges no single changed field keeps the check at zero (non-zero coefficients), and every field but (a, b) is part of the history the challenges are derived from; that fresh oracle values on a changed history satisfy the equation only with negligible probability, and that relations between independently derived generators are infeasible to find, are the random-oracle / discrete-log assumptions and are not formalised",
+                        "field and F-module laws; non-zero challenges"],
+    },
+    "C05": {
+        "prop_files": ["Properties/C05.v"], "run_files": ["Run/R1cs.v"],
+        "level": "proof",
+        "components": lambda tier: [("r1cs", ["statement"], {}), ("batch", ["batch"], {})],
+        "search": search_c05,
+        "assumptions": ["as C04: the history pins label, commitments and user data (proved); independence of oracle values on different histories is the random-oracle assumption",
+                        "user messages are distinguished from commitments by payload kind in the model (in Merlin both are framed byte strings under their labels)"],
     },
     "C06": {
         "prop_files": ["Properties/C06.v"], "run_files": ["Run/R1cs.v"],
